@@ -107,6 +107,12 @@ static PARALLELISM: AtomicUsize = AtomicUsize::new(0);
 /// threads concurrently.
 #[inline(always)]
 pub fn get_parallelism() -> usize {
+    #[cfg(kanal_verif)]
+    {
+        if let Some(p) = crate::verif::rt::parallelism() {
+            return p;
+        }
+    }
     let mut p = PARALLELISM.load(Ordering::Relaxed);
     // If the parallelism degree has not been computed yet.
     if p == 0 {
